@@ -247,7 +247,7 @@ func main() {
 		keyLens := []int{16, 17, 32, 63, 64, 65, 127, 128, 129, 200}
 		for ti, t := range tags {
 			for ki, kl := range keyLens {
-				if !full && (ti+ki+int(vt.Seed()))%3 != 0 {
+				if (ti+ki+int(vt.Seed()))%3 != 0 {
 					continue
 				}
 				v := variants[(ti+ki)%4]
@@ -320,11 +320,16 @@ func main() {
 		}
 		var retained []kept
 		lens := msgLens(full, r)
-		if !full && c.Alg == "HMAC" && ci%4 != 0 {
-			// quick: rotate the length set over configurations
+		if (!full && c.Alg == "HMAC" && ci%4 != 0) || (full && ci%4 != 0) {
+			// rotate the length set over configurations (quick: 1/6 of the lengths for 3/4 of the HMAC configurations;
+			// thorough: 1/4 of the lengths for 3/4 of all configurations, every length for the rest)
+			mod := 6
+			if full {
+				mod = 4
+			}
 			var sub []int
 			for i, l := range lens {
-				if (i+ci)%6 == 0 || l == 0 {
+				if (i+ci)%mod == 0 || l == 0 {
 					sub = append(sub, l)
 				}
 			}
@@ -382,9 +387,10 @@ func main() {
 			verify("exact", tag, msg)
 			// mutations: rotate through classes so every (config, length) gets a few and the run gets all
 			sel := (li + ci) % 3
+			deep := full && (li+ci)%4 == 0
 			if full || sel == 0 {
 				for cut := 0; cut < len(tag); cut++ { // every truncation incl. empty
-					if full || cut == 0 || cut == len(tag)-1 || cut == 5 || cut == 4 || cut == r.Intn(len(tag)) {
+					if deep || cut == 0 || cut == len(tag)-1 || cut == 5 || cut == 4 || cut == r.Intn(len(tag)) {
 						verify("trunc", tag[:cut], msg)
 					}
 				}
@@ -394,7 +400,7 @@ func main() {
 			if full || sel == 1 {
 				bits := len(tag) * 8
 				for b := 0; b < bits; b++ {
-					if full && n <= 40 || b%8 == (li+ci)%8 && (b/8)%3 == li%3 || b < 8 || b >= bits-8 {
+					if deep && n <= 16 || b%8 == (li+ci)%8 && (b/8)%3 == li%3 || b < 8 || b >= bits-8 {
 						t := append([]byte{}, tag...)
 						t[b/8] ^= 1 << uint(b%8)
 						verify("flip", t, msg)
